@@ -238,9 +238,13 @@ fn hash(family: &str, variant: &str, len: usize, seed: u64, place: Place, align:
         ("blake", "256") => d!(blake_hash::Blake256),
         ("blake", "384") => d!(blake_hash::Blake384),
         ("blake", "512") => d!(blake_hash::Blake512),
+        #[cfg(not(feature = "nostd_build"))]
         ("groestl", "224") => d!(groestl_aesni::Groestl224),
+        #[cfg(not(feature = "nostd_build"))]
         ("groestl", "256") => d!(groestl_aesni::Groestl256),
+        #[cfg(not(feature = "nostd_build"))]
         ("groestl", "384") => d!(groestl_aesni::Groestl384),
+        #[cfg(not(feature = "nostd_build"))]
         ("groestl", "512") => d!(groestl_aesni::Groestl512),
         ("jh", "224") => d!(jh_x86_64::Jh224),
         ("jh", "256") => d!(jh_x86_64::Jh256),
